@@ -18,17 +18,22 @@ import (
 
 	"github.com/tink-crypto/tink-go/v2/insecuresecretdataaccess"
 	"github.com/tink-crypto/tink-go/v2/internal/internalapi"
+	"github.com/tink-crypto/tink-go/v2/internal/protoserialization"
 	"github.com/tink-crypto/tink-go/v2/jwt/jwtecdsa"
 	"github.com/tink-crypto/tink-go/v2/jwt/jwthmac"
 	"github.com/tink-crypto/tink-go/v2/jwt/jwtmldsa"
 	"github.com/tink-crypto/tink-go/v2/jwt/jwtrsassapkcs1"
 	"github.com/tink-crypto/tink-go/v2/jwt/jwtrsassapss"
 	"github.com/tink-crypto/tink-go/v2/key"
+	rspb "github.com/tink-crypto/tink-go/v2/proto/jwt_rsa_ssa_pkcs1_go_proto"
+	pspb "github.com/tink-crypto/tink-go/v2/proto/jwt_rsa_ssa_pss_go_proto"
+	tinkpb "github.com/tink-crypto/tink-go/v2/proto/tink_go_proto"
 	"github.com/tink-crypto/tink-go/v2/secretdata"
 	"github.com/tink-crypto/tink-go/v2/signature/mldsa"
 	"github.com/tink-crypto/tink-go/v2/tink"
 	"github.com/tink-crypto/tink-go/v2/verifsim/catalog"
 	"github.com/tink-crypto/tink-go/v2/verifsim/refimpl/jwtref"
+	"google.golang.org/protobuf/proto"
 )
 
 // ---------------------------------------------------------------------------
@@ -45,13 +50,17 @@ type material struct {
 	ecD, ecPoint []byte // ES
 	ecPriv       *ecdsa.PrivateKey
 
-	rsaN, rsaD, rsaP, rsaQ []byte // RS / PS
+	rsaN, rsaD, rsaP, rsaQ []byte // RS / PS (minimal big-endian encodings)
 	rsaPriv                *rsa.PrivateKey
+	rsaBits                int  // bit length of the modulus
+	odd                    bool // the modulus length is not a multiple of 8 bits
 
 	mlSeed, mlPub []byte // ML
 	mlSigner      tink.Signer
 
 	pub []byte // what everybody knows about the key (for the HS-with-public-key confusion)
+
+	badKID *wkey // a key over this material whose custom kid is not UTF-8 (made on first use; tk == nil: tink refused it)
 }
 
 var tok = insecuresecretdataaccess.Token{}
@@ -129,10 +138,53 @@ func sources() ([]source, []source) {
 
 var rsaCache sync.Map // hex(N) → *rsa.PrivateKey (precomputed once per process; values depend on the pool only)
 
-func newMaterial(name string, s source, poolIdx int) (*material, error) {
+// oddRSA: RSA keys whose modulus length is not a multiple of 8 bits (2049 and
+// 2052 bits). No template, no key generator of tink and no pool entry makes
+// such a key, but every constructor and parser accepts one. The primes were
+// generated once with crypto/rsa.GenerateKey (which takes any size) and are
+// kept as constants: GenerateKey is not reproducible from a seed, and a key
+// per process would cost more than the whole quick tier. Test-only keys.
+var oddRSA = []struct{ p, q string }{
+	{"1aff34007d635195a885e2e5520d91d787bbfdaee29d897e04e0faf43c9a043e6e40ec68f39512d93b1c04cc85cb725c762f6262c16a3c79369d5d04c77fc1873f1a2b32e3993a410a1f0812399894d6a84ba1d6b1c5343ba973e48bd82bea537d02379d76a2f2c80ec31d78229e510219d16fa89dc0df4a4c5b8f937640071e1",
+		"c84f5a9ec8f31b128d347548aa23fdce847255e47e71cce48ac20770a1d41911bdc365b86b9522045e80c16cfe9146e7cdf0cd60092a73bfc7c97189f3ab3664228e44f2c557c79531e147db4ed0b562b02e25fed74d2a77d8b97b7d66789fc0bf5dffd5a4f170e79965f7aa74169ddffea8b87f0a7e04228e360d0c7bf0fc83"},
+	{"3c04596e29acaa58568337330eeed3601f4b8818ca9af341bf12cd15a6113a525de2a00e8e98d989aeba4dea5dd38d147caeda875c97c2fbbdc5e345b5394afb3f678fe02594c7ea3f29cc3eda353564a52f0543e92c943f9e3d17198f7df0c337509e415ca5c6abaf9f3e2abb423a344aa4b4d4141307adf08754fe495f7513b",
+		"3aaac785ec1ee7c2a1acd2b0784bff3b0d6acc10ad024d4aeaf4213bc49f565a08416c852ec163cb9c41c81734358241a3bef89ecc7ccaf3d14f67495283ff1af85020cabc76e814b4558925ba031f26ccbd3e4df0591e8468a8d903de88b830364af868f890d4a595267be5e70cc1225db609f4ed4da9d9bb86a5b711678fe65"},
+}
+
+// oddMaterial fills the RSA fields of m from oddRSA[i].
+func oddMaterial(m *material, i int) error {
+	p, ok1 := new(big.Int).SetString(oddRSA[i].p, 16)
+	q, ok2 := new(big.Int).SetString(oddRSA[i].q, 16)
+	if !ok1 || !ok2 {
+		return fmt.Errorf("oddRSA[%d] does not parse", i)
+	}
+	one := big.NewInt(1)
+	p1, q1 := new(big.Int).Sub(p, one), new(big.Int).Sub(q, one)
+	lambda := new(big.Int).Div(new(big.Int).Mul(p1, q1), new(big.Int).GCD(nil, nil, p1, q1))
+	d := new(big.Int).ModInverse(big.NewInt(65537), lambda)
+	if d == nil {
+		return fmt.Errorf("oddRSA[%d]: 65537 has no inverse", i)
+	}
+	n := new(big.Int).Mul(p, q)
+	if n.BitLen()%8 == 0 {
+		return fmt.Errorf("oddRSA[%d]: the modulus has %d bits", i, n.BitLen())
+	}
+	m.rsaN, m.rsaD, m.rsaP, m.rsaQ, m.odd = n.Bytes(), d.Bytes(), p.Bytes(), q.Bytes(), true
+	return nil
+}
+
+// newMaterial takes key material from catalog entry s (pool key poolIdx for
+// the pooled families); odd >= 0 takes the RSA numbers from oddRSA[odd] instead.
+func newMaterial(name string, s source, poolIdx, odd int) (*material, error) {
 	m := &material{name: name, fam: s.fam, src: s.e.Name, algs: s.algs}
 	var k key.Key
 	var err error
+	if odd >= 0 && (s.fam == "RS" || s.fam == "PS") {
+		if err := oddMaterial(m, odd%len(oddRSA)); err != nil {
+			return nil, err
+		}
+		return m, m.finishRSA()
+	}
 	if catalog.Pooled(s.e) {
 		k, _, err = catalog.PoolKey(s.e, poolIdx, 0)
 	} else {
@@ -191,22 +243,33 @@ func newMaterial(name string, s source, poolIdx int) (*material, error) {
 		return nil, fmt.Errorf("unexpected key type %T from catalog entry %s", k, s.e.Name)
 	}
 	if m.rsaN != nil {
-		m.pub = m.rsaN
-		ck := string(m.rsaN)
-		if v, ok := rsaCache.Load(ck); ok {
-			m.rsaPriv = v.(*rsa.PrivateKey)
-		} else {
-			pk := &rsa.PrivateKey{PublicKey: rsa.PublicKey{N: new(big.Int).SetBytes(m.rsaN), E: 65537}, D: new(big.Int).SetBytes(m.rsaD),
-				Primes: []*big.Int{new(big.Int).SetBytes(m.rsaP), new(big.Int).SetBytes(m.rsaQ)}}
-			pk.Precompute()
-			if err := pk.Validate(); err != nil {
-				return nil, err
-			}
-			rsaCache.Store(ck, pk)
-			m.rsaPriv = pk
+		if err := m.finishRSA(); err != nil {
+			return nil, err
 		}
 	}
 	return m, nil
+}
+
+// finishRSA: the numbers in their minimal encoding, and the standard-library key of the harness's own signer.
+func (m *material) finishRSA() error {
+	min := func(b []byte) []byte { return new(big.Int).SetBytes(b).Bytes() }
+	m.rsaN, m.rsaD, m.rsaP, m.rsaQ = min(m.rsaN), min(m.rsaD), min(m.rsaP), min(m.rsaQ)
+	m.rsaBits = new(big.Int).SetBytes(m.rsaN).BitLen()
+	m.pub = m.rsaN
+	ck := string(m.rsaN)
+	if v, ok := rsaCache.Load(ck); ok {
+		m.rsaPriv = v.(*rsa.PrivateKey)
+		return nil
+	}
+	pk := &rsa.PrivateKey{PublicKey: rsa.PublicKey{N: new(big.Int).SetBytes(m.rsaN), E: 65537}, D: new(big.Int).SetBytes(m.rsaD),
+		Primes: []*big.Int{new(big.Int).SetBytes(m.rsaP), new(big.Int).SetBytes(m.rsaQ)}}
+	pk.Precompute()
+	if err := pk.Validate(); err != nil {
+		return err
+	}
+	rsaCache.Store(ck, pk)
+	m.rsaPriv = pk
+	return nil
 }
 
 func hashFor(alg string) (crypto.Hash, func() hash.Hash) {
@@ -286,6 +349,11 @@ type wkey struct {
 	tk      key.Key // the tink key (symmetric or private)
 	ksID    uint32  // ID in the keyset
 
+	// RS / PS: how the big integers of the key are written when the key object is made
+	lzN, lzPriv int  // leading zero bytes on the modulus / on every other integer the route takes
+	viaProto    bool // through the proto parser (n, e, d, p, q, dp, dq, crt) instead of the public constructors (n, d, p, q)
+	encRefused  bool // tink refused that encoding; the key was made from the minimal one
+
 	oneMAC  macLike // one-key primitives through the real factory, built on first use
 	oneSign signLike
 }
@@ -307,6 +375,9 @@ func (k *wkey) String() string {
 	}
 	if k.primary {
 		st += ",primary"
+	}
+	if k.mat.rsaN != nil && (k.mat.odd || k.lzN > 0 || k.lzPriv > 0 || k.viaProto) {
+		st += fmt.Sprintf(",rsa[%dbit,n+%dz,priv+%dz,proto=%v]", k.mat.rsaBits, k.lzN, k.lzPriv, k.viaProto)
 	}
 	return fmt.Sprintf("%s/%s/%s(%q)/%s", k.mat.name, k.alg, k.rule, k.kid, st)
 }
@@ -347,31 +418,15 @@ func (k *wkey) build() error {
 		}
 		k.tk, err = jwtecdsa.NewPrivateKeyFromPublicKey(sec(m.ecD), pub)
 		return err
-	case "RS":
-		st := map[jwtref.KIDRule]jwtrsassapkcs1.KIDStrategy{jwtref.KIDIgnored: jwtrsassapkcs1.IgnoredKID, jwtref.KIDFromKeyID: jwtrsassapkcs1.Base64EncodedKeyIDAsKID, jwtref.KIDCustom: jwtrsassapkcs1.CustomKID}[k.rule]
-		a := map[string]jwtrsassapkcs1.Algorithm{"RS256": jwtrsassapkcs1.RS256, "RS384": jwtrsassapkcs1.RS384, "RS512": jwtrsassapkcs1.RS512}[k.alg]
-		p, err := jwtrsassapkcs1.NewParameters(jwtrsassapkcs1.ParametersOpts{ModulusSizeInBits: len(m.rsaN) * 8, PublicExponent: 65537, Algorithm: a, KidStrategy: st})
-		if err != nil {
-			return err
+	case "RS", "PS":
+		tk, err := k.rsaKey(k.lzN, k.lzPriv, k.viaProto)
+		if err != nil && (k.lzN > 0 || k.lzPriv > 0 || k.viaProto) {
+			// tink does not take this way of writing the key: the property speaks about the keysets that exist
+			k.encRefused = true
+			k.lzN, k.lzPriv, k.viaProto = 0, 0, false
+			tk, err = k.rsaKey(0, 0, false)
 		}
-		pub, err := jwtrsassapkcs1.NewPublicKey(jwtrsassapkcs1.PublicKeyOpts{Modulus: m.rsaN, IDRequirement: idReq, CustomKID: ckid, HasCustomKID: custom, Parameters: p})
-		if err != nil {
-			return err
-		}
-		k.tk, err = jwtrsassapkcs1.NewPrivateKey(jwtrsassapkcs1.PrivateKeyOpts{PublicKey: pub, D: sec(m.rsaD), P: sec(m.rsaP), Q: sec(m.rsaQ)})
-		return err
-	case "PS":
-		st := map[jwtref.KIDRule]jwtrsassapss.KIDStrategy{jwtref.KIDIgnored: jwtrsassapss.IgnoredKID, jwtref.KIDFromKeyID: jwtrsassapss.Base64EncodedKeyIDAsKID, jwtref.KIDCustom: jwtrsassapss.CustomKID}[k.rule]
-		a := map[string]jwtrsassapss.Algorithm{"PS256": jwtrsassapss.PS256, "PS384": jwtrsassapss.PS384, "PS512": jwtrsassapss.PS512}[k.alg]
-		p, err := jwtrsassapss.NewParameters(jwtrsassapss.ParametersOpts{ModulusSizeInBits: len(m.rsaN) * 8, PublicExponent: 65537, Algorithm: a, KidStrategy: st})
-		if err != nil {
-			return err
-		}
-		pub, err := jwtrsassapss.NewPublicKey(jwtrsassapss.PublicKeyOpts{Modulus: m.rsaN, IDRequirement: idReq, CustomKID: ckid, HasCustomKID: custom, Parameters: p})
-		if err != nil {
-			return err
-		}
-		k.tk, err = jwtrsassapss.NewPrivateKey(jwtrsassapss.PrivateKeyOpts{PublicKey: pub, D: sec(m.rsaD), P: sec(m.rsaP), Q: sec(m.rsaQ)})
+		k.tk = tk
 		return err
 	case "ML":
 		st := map[jwtref.KIDRule]jwtmldsa.KIDStrategy{jwtref.KIDIgnored: jwtmldsa.IgnoredKID, jwtref.KIDFromKeyID: jwtmldsa.Base64EncodedKeyIDAsKID, jwtref.KIDCustom: jwtmldsa.CustomKID}[k.rule]
@@ -388,4 +443,85 @@ func (k *wkey) build() error {
 		return err
 	}
 	return fmt.Errorf("unknown family %s", m.fam)
+}
+
+func lpad(b []byte, z int) []byte { return append(make([]byte, z, z+len(b)), b...) }
+
+// rsaKey makes the tink private key of an RS / PS key with lzN leading zero
+// bytes on the modulus and lzPriv on the other integers, through the public
+// constructors or (viaProto) through the registered proto parser fed with a
+// hand-made key proto.
+func (k *wkey) rsaKey(lzN, lzPriv int, viaProto bool) (key.Key, error) {
+	m := k.mat
+	custom := k.rule == jwtref.KIDCustom
+	var idReq uint32
+	if k.rule == jwtref.KIDFromKeyID {
+		idReq = k.id
+	}
+	n, d, p, q := lpad(m.rsaN, lzN), lpad(m.rsaD, lzPriv), lpad(m.rsaP, lzPriv), lpad(m.rsaQ, lzPriv)
+	if viaProto {
+		pre := m.rsaPriv.Precomputed
+		if pre.Dp == nil || pre.Dq == nil || pre.Qinv == nil {
+			return nil, fmt.Errorf("harness: no CRT values for %s", m.name)
+		}
+		e, dp, dq, crt := lpad([]byte{1, 0, 1}, lzPriv), lpad(pre.Dp.Bytes(), lzPriv), lpad(pre.Dq.Bytes(), lzPriv), lpad(pre.Qinv.Bytes(), lzPriv)
+		opt := tinkpb.OutputPrefixType_RAW
+		if k.rule == jwtref.KIDFromKeyID {
+			opt = tinkpb.OutputPrefixType_TINK
+		}
+		var val []byte
+		var url string
+		var err error
+		if m.fam == "RS" {
+			pub := &rspb.JwtRsaSsaPkcs1PublicKey{Algorithm: map[string]rspb.JwtRsaSsaPkcs1Algorithm{"RS256": rspb.JwtRsaSsaPkcs1Algorithm_RS256, "RS384": rspb.JwtRsaSsaPkcs1Algorithm_RS384, "RS512": rspb.JwtRsaSsaPkcs1Algorithm_RS512}[k.alg], N: n, E: e}
+			if custom {
+				pub.CustomKid = &rspb.JwtRsaSsaPkcs1PublicKey_CustomKid{Value: k.kid}
+			}
+			url = "type.googleapis.com/google.crypto.tink.JwtRsaSsaPkcs1PrivateKey"
+			val, err = proto.Marshal(&rspb.JwtRsaSsaPkcs1PrivateKey{PublicKey: pub, D: d, P: p, Q: q, Dp: dp, Dq: dq, Crt: crt})
+		} else {
+			pub := &pspb.JwtRsaSsaPssPublicKey{Algorithm: map[string]pspb.JwtRsaSsaPssAlgorithm{"PS256": pspb.JwtRsaSsaPssAlgorithm_PS256, "PS384": pspb.JwtRsaSsaPssAlgorithm_PS384, "PS512": pspb.JwtRsaSsaPssAlgorithm_PS512}[k.alg], N: n, E: e}
+			if custom {
+				pub.CustomKid = &pspb.JwtRsaSsaPssPublicKey_CustomKid{Value: k.kid}
+			}
+			url = "type.googleapis.com/google.crypto.tink.JwtRsaSsaPssPrivateKey"
+			val, err = proto.Marshal(&pspb.JwtRsaSsaPssPrivateKey{PublicKey: pub, D: d, P: p, Q: q, Dp: dp, Dq: dq, Crt: crt})
+		}
+		if err != nil {
+			return nil, err
+		}
+		ks, err := protoserialization.NewKeySerialization(&tinkpb.KeyData{TypeUrl: url, Value: val, KeyMaterialType: tinkpb.KeyData_ASYMMETRIC_PRIVATE}, opt, idReq)
+		if err != nil {
+			return nil, err
+		}
+		return protoserialization.ParseKey(ks)
+	}
+	ckid := ""
+	if custom {
+		ckid = k.kid
+	}
+	if m.fam == "RS" {
+		st := map[jwtref.KIDRule]jwtrsassapkcs1.KIDStrategy{jwtref.KIDIgnored: jwtrsassapkcs1.IgnoredKID, jwtref.KIDFromKeyID: jwtrsassapkcs1.Base64EncodedKeyIDAsKID, jwtref.KIDCustom: jwtrsassapkcs1.CustomKID}[k.rule]
+		a := map[string]jwtrsassapkcs1.Algorithm{"RS256": jwtrsassapkcs1.RS256, "RS384": jwtrsassapkcs1.RS384, "RS512": jwtrsassapkcs1.RS512}[k.alg]
+		par, err := jwtrsassapkcs1.NewParameters(jwtrsassapkcs1.ParametersOpts{ModulusSizeInBits: m.rsaBits, PublicExponent: 65537, Algorithm: a, KidStrategy: st})
+		if err != nil {
+			return nil, err
+		}
+		pub, err := jwtrsassapkcs1.NewPublicKey(jwtrsassapkcs1.PublicKeyOpts{Modulus: n, IDRequirement: idReq, CustomKID: ckid, HasCustomKID: custom, Parameters: par})
+		if err != nil {
+			return nil, err
+		}
+		return jwtrsassapkcs1.NewPrivateKey(jwtrsassapkcs1.PrivateKeyOpts{PublicKey: pub, D: sec(d), P: sec(p), Q: sec(q)})
+	}
+	st := map[jwtref.KIDRule]jwtrsassapss.KIDStrategy{jwtref.KIDIgnored: jwtrsassapss.IgnoredKID, jwtref.KIDFromKeyID: jwtrsassapss.Base64EncodedKeyIDAsKID, jwtref.KIDCustom: jwtrsassapss.CustomKID}[k.rule]
+	a := map[string]jwtrsassapss.Algorithm{"PS256": jwtrsassapss.PS256, "PS384": jwtrsassapss.PS384, "PS512": jwtrsassapss.PS512}[k.alg]
+	par, err := jwtrsassapss.NewParameters(jwtrsassapss.ParametersOpts{ModulusSizeInBits: m.rsaBits, PublicExponent: 65537, Algorithm: a, KidStrategy: st})
+	if err != nil {
+		return nil, err
+	}
+	pub, err := jwtrsassapss.NewPublicKey(jwtrsassapss.PublicKeyOpts{Modulus: n, IDRequirement: idReq, CustomKID: ckid, HasCustomKID: custom, Parameters: par})
+	if err != nil {
+		return nil, err
+	}
+	return jwtrsassapss.NewPrivateKey(jwtrsassapss.PrivateKeyOpts{PublicKey: pub, D: sec(d), P: sec(p), Q: sec(q)})
 }
